@@ -409,7 +409,10 @@ CLI_CORRUPTIONS = {
     "views-missing-filter": ("views", GOOD_VIEWS.replace("filter: true\n", "")),
     "views-bad-expression": ("views", GOOD_VIEWS.replace('category == "Food"', 'category == "Food')),
 }
-CLI_COMMANDS = [["up", "--format", "json"], ["up", "--summary"], ["diag"]]
+CLI_COMMANDS = [["up", "--format", "json"], ["up", "--summary"], ["diag"],
+                # the other commands that classify with the rules file (run on rules corruptions only: they need not read the views file)
+                ["discover"], ["discover", "--format", "json"], ["explain"], ["explain", "Netflix"], ["explain", "NETFLIX.COM 1", "--amount", "15.99"]]
+RULES_ONLY_COMMANDS = {"discover", "explain"}
 
 
 def make_budget(base, rules_text, views_text):
@@ -441,7 +444,7 @@ def check_cli(case):
         viol.append({"kind": "command-crashes-on-corrupt-file", "detail": {"command": cmd, "exit": r["exit"], "output_tail": out[-600:]}})
     elif not names_it:
         viol.append({"kind": "corrupt-file-not-reported", "detail": {"command": cmd, "file": fname, "exit": r["exit"], "output_tail": out[-700:]}})
-    if which == "rules" and cmd[0] == "up" and r["exit"] == 0:
+    if which == "rules" and cmd[0] in ("up", "discover", "explain") and r["exit"] == 0:
         make_budget(base, "# no rules\n", GOOD_VIEWS)
         r0 = proc.run_cli(cmd, cwd=base)
         if r0["exit"] == 0 and r0["stdout"] == r["stdout"]:
@@ -467,6 +470,8 @@ def gen_cases(tier):
             yield {"part": "corrupt", "fmt": fmt, "preamble": p, "sections": list(seq)}
     for c in CLI_CORRUPTIONS:
         for k in range(len(CLI_COMMANDS)):
+            if CLI_COMMANDS[k][0] in RULES_ONLY_COMMANDS and CLI_CORRUPTIONS[c][0] != "rules":
+                continue
             yield {"part": "cli", "corruption": c, "command": k}
 
 
